@@ -13,7 +13,13 @@
        forall r b, parse r = Some b -> tree (b_id b) = Some b
    (a block id is the hash of the block bytes).  [ancestors tree n b] = the first n blocks of the
    parent-hash chain of b through [tree], nearest first; [chain_from tree b l] says the same
-   relationally; [below_last min l] = the last block of l has ts < min and no other has.
+   relationally.  [fin min b] = the client's completion test: ts b < min, or b is genesis (height 0);
+   [below_last min l] = the last block of l passes the completion test and no other block of l does
+   ([fin_true] / [fin_false] in Proofs/Backfill_proofs.v give the arithmetic reading).
+
+   F-22 (the client never completed once it had received genesis while genesis.ts >= min) is
+   REPAIRED in /repo (fix commit "validity-window backfill must complete when it reaches genesis");
+   model and theorems describe the repaired code: see C22_genesis_completes.
 
    The emap behind TimeValidityWindow never stores an item with expiry 0 (emap.add returns early,
    see C09's known finding F-23), hence the "e <> 0" in the tracked sets below. *)
@@ -64,18 +70,18 @@ Proof.
 Qed.
 Print Assumptions C22_saved_tracked.
 
-(* Exactness on completion (constant minimum = Syncer without UpdateSyncTarget; timestamps and
-   window non-negative so that min <= target.ts): the syncer reports completion iff local ++ saved
-   is the target's ancestry down to and INCLUDING the first ancestor with ts < min (such a list is
-   unique, C22_exact_unique); while it has not completed no saved block is below min.  With
-   C22_saved_tracked: on completion the tracked set is exactly what the local blocks gave plus the
-   non-zero-expiry items of exactly these ancestors.  If populate already saw the whole window
-   locally nothing is fetched or saved.  The guard that separates this from the F-22 finding is
-   inside the iff: completion needs SOME ancestor with ts < min. *)
+(* Exactness on completion (constant minimum = Syncer without UpdateSyncTarget).  [oldest] is the
+   oldest locally found block (the block the fetch starts from).  If populate already saw the whole
+   window locally, or [oldest] itself passes the completion test, nothing is fetched or saved and
+   the syncer completes.  Otherwise the syncer reports completion iff the saved blocks are the
+   ancestors of [oldest] down to and INCLUDING the first one with ts < min or height 0 (genesis);
+   such a list is unique (C22_exact_unique); while it has not completed no saved block passes the
+   test.  With C22_saved_tracked: on completion the tracked set is exactly what the local blocks
+   gave plus the non-zero-expiry items of exactly these ancestors. *)
 Theorem C22_exact : forall (R : Type) (parse : R -> option block) (tree : index),
   (forall r b, parse r = Some b -> tree (b_id b) = Some b) ->
   forall (idx : index) (w : win) (W : Z) (target : block) (resps : list (resp R)),
-  sub idx tree -> 0 <= W -> 0 <= b_ts target ->
+  sub idx tree ->
   let min := oldest_allowed W (b_ts target) in
   (forall r, In r resps -> r_min r = min) ->
   let p := populate idx w W target in
@@ -87,15 +93,17 @@ Theorem C22_exact : forall (R : Type) (parse : R -> option block) (tree : index)
     chain_from tree target (local ++ saved) /\
     (snd p = true -> saved = [] /\ complete = true) /\
     (snd p = false ->
-       (complete = true <-> below_last min (local ++ saved)) /\
-       (complete = false -> forall b, In b (local ++ saved) -> min <= b_ts b)).
+       let oldest := last local target in
+       (forall b, In b local -> min <= b_ts b) /\
+       (fin min oldest = true -> saved = [] /\ complete = true) /\
+       (fin min oldest = false ->
+          (complete = true <-> below_last min saved) /\
+          (complete = false -> forall b, In b saved -> fin min b = false))).
 Proof.
-  intros R parse tree ORACLE idx w W target resps Hsub HW Hts min Hm.
+  intros R parse tree ORACLE idx w W target resps Hsub min Hm.
   destruct (syncer_spec R parse tree ORACLE idx w W target resps Hsub) as [local [H1 [H2 [_ [_ [H5 H6]]]]]].
   exists local. split; [exact H1|]. split; [exact H2|]. split; [exact H5|].
-  intros Hp. assert (min <= b_ts target) as Hmin by (unfold min, oldest_allowed; lia).
-  destruct (H6 Hp Hm Hmin) as [Hl [Hiff Hopen]]. split; [exact Hiff|].
-  intros Hc b Hin. apply in_app_or in Hin. destruct Hin as [Hin|Hin]; [apply Hl | apply Hopen]; assumption.
+  intros Hp. exact (H6 Hp Hm).
 Qed.
 Print Assumptions C22_exact.
 
@@ -112,7 +120,7 @@ Print Assumptions C22_exact_unique.
 Theorem C22_progress : forall (R : Type) (parse : R -> option block) (tree : index),
   (forall r b, parse r = Some b -> tree (b_id b) = Some b) ->
   forall (start : block) (min : Z) (pre : list (resp R)) (r : resp R),
-  (forall r', In r' (pre ++ [r]) -> r_min r' = min) -> min <= b_ts start ->
+  (forall r', In r' (pre ++ [r]) -> r_min r' = min) -> fin min start = false ->
   snd (fst (client parse pre min start [] [])) = false ->
   serves R parse r (next_expected R parse start min pre) ->
   exists b tail, b_id b = next_expected R parse start min pre /\
@@ -121,37 +129,42 @@ Theorem C22_progress : forall (R : Type) (parse : R -> option block) (tree : ind
 Proof. exact client_step_progress. Qed.
 Print Assumptions C22_progress.
 
-(* Completion: if the start block has an ancestor below the minimum ([full] = its ancestry down to
-   the first such block; this guard excludes exactly the F-22 situation), then every fault sequence
-   that contains at least |full| responses serving the request they answer, interleaved with
-   arbitrary faults ([serving_run]), closes the channel, and the emitted blocks are exactly [full]. *)
+(* Completion: let [full] be the ancestry of the start block down to its first ancestor with
+   ts < min OR height 0 (genesis) - it exists for every start block of a chain that goes back to
+   genesis.  Then every fault sequence that contains at least |full| responses serving the request
+   they answer, interleaved with arbitrary faults ([serving_run]), closes the channel, and the
+   emitted blocks are exactly [full]. *)
 Theorem C22_completes : forall (R : Type) (parse : R -> option block) (tree : index),
   (forall r b, parse r = Some b -> tree (b_id b) = Some b) ->
   forall (start : block) (min : Z) (full : list block) (resps : list (resp R)) (n : nat),
-  chain_from tree start full -> below_last min full -> min <= b_ts start ->
+  chain_from tree start full -> below_last min full -> fin min start = false ->
   (forall r, In r resps -> r_min r = min) ->
   serving_run R parse start min [] resps n -> (length full <= n)%nat ->
   client parse resps min start [] [] = (full, true, snd (client parse resps min start [] [])).
 Proof. exact client_liveness. Qed.
 Print Assumptions C22_completes.
 
-(* KNOWN FINDING F-22 (client-never-completes-after-reaching-genesis): the property says the
-   backfill goes "back past the validity window (or to genesis)".  In this configuration (chain
-   younger than the window: genesis.ts = 5 >= min = 2) the first response serves genesis, the whole
-   ancestry has then been received, yet for EVERY continuation of the fault sequence the channel is
-   never closed and the client keeps requesting height 2^64-1. *)
-Theorem C22_genesis_refuted :
-  exists (parse : unit -> option block) (tree : index) (start genesis : block) (min : Z) (r0 : resp unit),
-  (forall r b, parse r = Some b -> tree (b_id b) = Some b) /\
-  tree (b_parent start) = Some genesis /\ b_height genesis = 0%N /\ tree (b_parent genesis) = None /\
-  forall resps : list (resp unit), (forall r, In r resps -> r_min r = min) ->
-    client parse (r0 :: resps) min start [] [] =
-      ([genesis], false, 0%N :: repeat (two64 - 1)%N (length resps)).
+(* Reaching genesis completes the backfill (the repaired F-22): for every fault sequence with a
+   constant minimum, as soon as a block of height 0 (or one below the minimum) has been emitted the
+   channel is closed - also when genesis.ts >= min (chain younger than the validity window). *)
+Theorem C22_genesis_completes : forall (R : Type) (parse : R -> option block)
+  (start : block) (min : Z) (resps : list (resp R)),
+  (forall r, In r resps -> r_min r = min) -> fin min start = false ->
+  forall b, In b (fst (fst (client parse resps min start [] []))) ->
+  (b_ts b < min \/ b_height b = 0%N) -> snd (fst (client parse resps min start [] [])) = true.
 Proof.
-  exists f22_parse, f22_tree, f22_start, f22_genesis, 2, f22_serve.
-  split; [exact f22_oracle|]. repeat split. exact f22_never_completes.
+  intros R parse start min resps Hm Hs b Hin Hb.
+  destruct (snd (fst (client parse resps min start [] []))) eqn:Hc; [reflexivity|]. exfalso.
+  pose proof (proj2 (client_closed_iff R parse start min resps Hm Hs) Hc b Hin) as Hf.
+  apply fin_true in Hb. congruence.
 Qed.
-Print Assumptions C22_genesis_refuted.
+Print Assumptions C22_genesis_completes.
+
+(* the configuration that never completed before the fix: genesis.ts = 5 >= min = 2; one response
+   serving genesis now closes the channel, whatever follows *)
+Example C22_f22_repaired : forall resps : list (resp unit),
+  client f22_parse (f22_serve :: resps) 2 f22_start [] [] = ([f22_genesis], true, [0%N]).
+Proof. exact f22_completes. Qed.
 
 (* ---- non-vacuity: a concrete chain 10 <- 11 <- 12 <- 13, ts 0..3, W = 1 (min = 2) ---- *)
 Definition ex_chain : list block :=
@@ -192,14 +205,14 @@ Qed.
    responses *)
 Definition ex_full : list block := [mkB 12 11 2 2 [(8%N, 5)]; mkB 11 10 1 1 [(7%N, 5); (6%N, 0)]].
 Example C22_completes_nonvacuous :
-  chain_from ex_tree ex_target ex_full /\ below_last 2 ex_full /\ 2 <= b_ts ex_target /\
+  chain_from ex_tree ex_target ex_full /\ below_last 2 ex_full /\ fin 2 ex_target = false /\
   serving_run _ ex_parse ex_target 2 [] ex_resps 2 /\ (length ex_full <= 2)%nat.
 Proof.
   split; [repeat (econstructor; [reflexivity|]); constructor|].
   split.
   { exists [mkB 12 11 2 2 [(8%N, 5)]], (mkB 11 10 1 1 [(7%N, 5); (6%N, 0)]).
-    split; [reflexivity|]. split; [cbn; lia|]. intros b [<-|[]]. cbn. lia. }
-  split; [cbn; lia|]. split; [|cbn; lia].
+    split; [reflexivity|]. split; [reflexivity|]. intros b [<-|[]]. reflexivity. }
+  split; [reflexivity|]. split; [|cbn; lia].
   unfold ex_resps.
   apply sr_fault. apply sr_fault. apply sr_fault.
   apply sr_good. { eexists _, _, _. split; [reflexivity|]. split; reflexivity. }
@@ -209,11 +222,36 @@ Proof.
 Qed.
 Example C22_progress_nonvacuous :
   let pre := firstn 3 ex_resps in let r := nth 3 ex_resps (mkResp 0 None) in
-  (forall r', In r' (pre ++ [r]) -> r_min r' = 2) /\ 2 <= b_ts ex_target /\
+  (forall r', In r' (pre ++ [r]) -> r_min r' = 2) /\ fin 2 ex_target = false /\
   snd (fst (client ex_parse pre 2 ex_target [] [])) = false /\
   serves _ ex_parse r (next_expected _ ex_parse ex_target 2 pre).
 Proof.
-  cbn zeta. split; [|split; [cbn; lia|split; [reflexivity|]]].
+  cbn zeta. split; [|split; [reflexivity|split; [reflexivity|]]].
   - intros r' Hin. cbn in Hin. repeat (destruct Hin as [<-|Hin]; [reflexivity|]). destruct Hin.
   - eexists _, _, _. split; [reflexivity|]. split; reflexivity.
+Qed.
+
+(* a chain younger than the validity window (W = 4: min = 0, no block is below it): the backfill
+   goes back to genesis (block 10, height 0) and completes there; [full] ends in the genesis block *)
+Definition ex_young_resps : list (resp (option block)) :=
+  [ mkResp 0 (Some [Some (mkB 12 11 2 2 [(8%N, 5)])]); mkResp 0 None;
+    mkResp 0 (Some [Some (mkB 11 10 1 1 [(7%N, 5); (6%N, 0)]); None]); mkResp 0 (Some [Some (mkB 10 99 0 0 [])]) ].
+Definition ex_young_full : list block := ex_full ++ [mkB 10 99 0 0 []].
+Example C22_completes_at_genesis :
+  chain_from ex_tree ex_target ex_young_full /\ below_last 0 ex_young_full /\ fin 0 ex_target = false /\
+  serving_run _ ex_parse ex_target 0 [] ex_young_resps 3 /\
+  let s := syncer ex_parse ex_idx win0 4 ex_target ex_young_resps in
+  oldest_allowed 4 (b_ts ex_target) = 0 /\ map b_id (snd (fst (fst s))) = [12; 11; 10]%N /\ snd (fst s) = true.
+Proof.
+  split; [repeat (econstructor; [reflexivity|]); constructor|].
+  split.
+  { exists ex_full, (mkB 10 99 0 0 []). split; [reflexivity|]. split; [reflexivity|].
+    intros b [<-|[<-|[]]]; reflexivity. }
+  split; [reflexivity|]. split; [|vm_compute; repeat split].
+  unfold ex_young_resps.
+  apply sr_good. { eexists _, _, _. split; [reflexivity|]. split; reflexivity. }
+  apply sr_fault.
+  apply sr_good. { eexists _, _, _. split; [reflexivity|]. split; reflexivity. }
+  apply sr_good. { eexists _, _, _. split; [reflexivity|]. split; reflexivity. }
+  apply sr_nil.
 Qed.
